@@ -84,6 +84,37 @@ class _Canon(ast.NodeTransformer):
             return ast.copy_location(d, node)
         return node
 
+    def visit_BinOp(self, node: ast.BinOp):
+        self.generic_visit(node)
+        # C23: integer constant arithmetic left behind by folded named constants: `8 - 1` -> `7`, `(x + 8) - 1` -> `x + 7`
+        def ci(e):
+            return e.value if isinstance(e, ast.Constant) and isinstance(e.value, int) and not isinstance(e.value, bool) else None
+        a, b = ci(node.left), ci(node.right)
+        if a is not None and b is not None:
+            try:
+                if isinstance(node.op, ast.Add):
+                    v = a + b
+                elif isinstance(node.op, ast.Sub):
+                    v = a - b
+                elif isinstance(node.op, ast.Mult):
+                    v = a * b
+                elif isinstance(node.op, ast.FloorDiv) and b != 0:
+                    v = a // b
+                else:
+                    return node
+            except Exception:
+                return node
+            return ast.copy_location(ast.Constant(value=v), node)
+        if b is not None and isinstance(node.op, (ast.Add, ast.Sub)) and isinstance(node.left, ast.BinOp) and isinstance(node.left.op, (ast.Add, ast.Sub)) and ci(node.left.right) is not None:
+            inner = ci(node.left.right) * (1 if isinstance(node.left.op, ast.Add) else -1)
+            outer = b * (1 if isinstance(node.op, ast.Add) else -1)
+            tot = inner + outer
+            if tot == 0:
+                return node.left.left
+            new = ast.BinOp(left=node.left.left, op=ast.Add() if tot > 0 else ast.Sub(), right=ast.copy_location(ast.Constant(value=abs(tot)), node.right))
+            return ast.copy_location(new, node)
+        return node
+
     def visit_Dict(self, node: ast.Dict):
         self.generic_visit(node)
         # `**{}` inside a dict display adds nothing
